@@ -2,7 +2,8 @@ import SgVerif.Sched.Model
 /-! A small concrete instance of `Sys`, used for the non-vacuity examples and the counterexamples of C01/C02.
 
 Actors 0, 1, 2 …; local state = the actor's own log; kernel state = (global log of what maestro did, dead actors).
-Actor 0 owns the activities 10 and 11, on which actors 1 and 2 are blocked; actors ≥ 5 are daemons. -/
+Actor 0 owns the activities 10 and 11, on which actors 1 and 2 are blocked; actor 4 owns activity 12 (actor 3 blocked);
+actors 5 and 6 are daemons. -/
 namespace SgVerif.Sched.Demo
 open SgVerif.Sched
 
@@ -17,14 +18,14 @@ structure K where
   K := K
   Req := Nat
   Ans := Nat
-  slice := fun a l x => (x :: l, if a = 0 then 0 else a + x)         -- actor 0's next request is `exit` (0)
+  slice := fun a l x => (x :: l, if a = 0 ∨ a = 4 then 0 else a + x)  -- the next request of actors 0 and 4 is `exit` (0)
   isExit := fun r => r == 0
   handle := fun a r k => ({ k with log := k.log ++ [100 + a] }, [(a, r)])   -- answered at once, rescheduled
   ended := fun k => (k, [])
   onlyDaemons := fun k => k.daemonsOnly
   daemons := fun _ => [5, 6]
   dying := fun k a => a ∈ k.dead
-  acts := fun _ a => if a = 0 then [10, 11] else []
+  acts := fun _ a => if a = 0 then [10, 11] else if a = 4 then [12] else []
   cancel := fun v k => ({ k with log := k.log ++ [v] }, [(v - 9, 7)])      -- cancelling 10 wakes actor 1, 11 wakes actor 2
   markDead := fun a k => { k with dead := k.dead ++ [a], log := k.log ++ [200 + a] }
   killedAns := 99
